@@ -186,6 +186,24 @@ func genMWCase(t *rapid.T, g mwGenCfg) MWCase {
 			c.Steps = append(c.Steps, MWStep{Op: "vacuum", W: w, Cut: cut})
 		}
 	}
+	if g.wVacuum > 0 && rapid.IntRange(0, 2).Draw(t, "pattern") == 0 {
+		// Targeted region (uniform draws rarely reach it): a row whose delete time is older
+		// than its stored modification time (a later-stamped column write is kept with the
+		// deleted row), vacuumed with a cutoff between the two, then inserted again.
+		w := rapid.IntRange(0, c.NWriters-1).Draw(t, "pw")
+		key := rapid.SampledFrom(intKeys(c.NKeys)).Draw(t, "pkey")
+		t0, t1, t2, t3 := int64(42*256+1), int64(43*256+2), int64(44*256+3), int64(45*256+4)
+		cut := rapid.SampledFrom([]int64{t1 + 1, t2, t2 - 1}).Draw(t, "pcut")
+		pat := []MWStep{
+			{Op: "stmt", W: w, Stmts: []Stmt{{Kind: "ins", Keys: []Val{key}, Cols: []string{"a"}, Vals: [][]Val{{vInt(1)}}, T: t0}}},
+			{Op: "stmt", W: w, Stmts: []Stmt{{Kind: "upd", Keys: []Val{key}, Cols: []string{"b"}, Vals: [][]Val{{vInt(2)}}, T: t2}}},
+			{Op: "stmt", W: w, Stmts: []Stmt{{Kind: "del", Keys: []Val{key}, T: t1}}},
+			{Op: "vacuum", W: w, Cut: cut},
+			{Op: "stmt", W: w, Stmts: []Stmt{{Kind: "ins", Keys: []Val{key}, Cols: []string{"c"}, Vals: [][]Val{{vInt(1)}}, T: t3}}},
+		}
+		pos := rapid.IntRange(0, len(c.Steps)).Draw(t, "ppos")
+		c.Steps = append(append(append([]MWStep{}, c.Steps[:pos]...), pat...), c.Steps[pos:]...)
+	}
 	return c
 }
 
